@@ -1120,3 +1120,23 @@ Theorem cross_transform_refused vd vc f1 f2 x y :
   refused (transform_outcome vd vc f1 x) \/ refused (transform_outcome vd vc f2 y) ->
   refused (cross_transform_outcome vd vc f1 f2 x y).
 Proof. intros [H|H]; [now apply cross_transform_refused_l|now apply cross_transform_refused_r]. Qed.
+
+(* ------------------------------------------------------------------ exact acceptance set of n_modes *)
+Definition valid_n_modes (v : pyval) : Prop :=
+  match v with
+  | VInt z => (1 <= z)%Z
+  | VFloat f => in_unit_interval f = true
+  | VStr s => s = "all"%string
+  | VBool b => b = true
+  | _ => False
+  end.
+
+Lemma n_modes_accepted_iff v : sanity_check_n_modes v = Ok tt <-> valid_n_modes v.
+Proof. destruct v as [z|f|s|b| | | | | | | ]; cbn [valid_n_modes]; try (split; [discriminate|contradiction]).
+  - cbn [sanity_check_n_modes]. destruct (Z.ltb_spec z 1); split; intros; try lia; try discriminate; reflexivity.
+  - split; intros H.
+    + destruct (in_unit_interval f) eqn:E; [reflexivity|]. rewrite (n_modes_float_outside f E) in H. discriminate.
+    + apply n_modes_float_inside; exact H.
+  - cbn [sanity_check_n_modes existsb]. destruct (String.eqb_spec s "all"); cbn; split; intros; try discriminate; try contradiction; auto.
+  - destruct b; cbn; split; intros; try discriminate; reflexivity.
+Qed.
